@@ -145,7 +145,7 @@ Lemma tptn_not_type : forall (s: pstate) lp x l, Up s (lp :: x :: l) -> kind_eqb
 Proof.
   intros s lp x l HU Hk Hx. destruct (accept_hit P s lp (x :: l) K_LPAREN HU Hk) as [s2 [Ha [HU2 HA]]].
   destruct (peek_kind_up P s2 x l HU2) as [s3 [Hp [HU3 HS]]].
-  destruct (Adv_Same P _ _ _ _ HA HS) as [Hb Hi].
+  destruct (Adv_Same P _ _ _ _ HA HS) as [Hb [Hi _]].
   destruct (reset_one P s3 lp (before P s) (idx P s) (x :: l) Hb Hi HU3) as [s4 [Hr [HU4 _]]].
   exists s4. split; [|exact HU4]. intros f. rewrite tptn_eq. unfold bind at 1. rewrite mark_eq. unfold bind at 1. rewrite Ha.
   unfold bind at 1. unfold starts_declaration. unfold bind at 1. rewrite Hp. unfold ret at 1. cbn [okind_in]. rewrite Hx. cbn [negb].
@@ -216,6 +216,73 @@ Proof.
   destruct (expect_up P s6 rpt _ K_RPAREN HU6 Hrp) as [s7 [H7 [HU7 _]]].
   destruct (suffixes_stop s7 n l HU7 Hq) as [s8 [H8 HU8]].
   exists (f0 + 5), N, s8. split; [|split; [exact HU8|exact HN]].
+  intros f Hf. destruct f as [|[|[|[|f]]]]; try lia.
+  rewrite (cast_eq P). unfold bind at 1. rewrite H1.
+  assert (Hk: tk lp = K_LPAREN). { clear -Hlp. destruct (tk lp); vm_compute in Hlp; try discriminate Hlp; reflexivity. }
+  assert (Hpass: unary_pass (tk lp) = true) by (rewrite Hk; reflexivity).
+  rewrite (unary_pass_eq _ _ _ _ H2 Hpass).
+  rewrite (postfix_eq P). unfold bind at 1. rewrite H3. unfold bind at 1. unfold complit_of at 1. unfold ret at 1.
+  unfold bind at 1. rewrite (primary_eq P). unfold bind at 1. rewrite H4.
+  assert (Hpp: primary_paren (tk lp) = true) by (rewrite Hk; reflexivity).
+  unfold primary_paren in Hpp. do 4 (apply andb_true_iff in Hpp; destruct Hpp as [Hpp ?]).
+  repeat match goal with X: negb _ = true |- _ => apply negb_true_iff in X; rewrite X end.
+  match goal with X: okind_is _ K_LPAREN = true |- _ => rewrite X end.
+  unfold bind at 1. rewrite H5. unfold bind at 1. rewrite (H6 f) by lia. unfold bind at 1. rewrite H7. unfold ret at 1.
+  destruct f as [|f]; [lia|]. apply H8.
+Qed.
+
+(* ---- the same steps with their cost: token reads (ticks) against tokens consumed (idx) ---- *)
+Lemma tptn_no_paren_c : forall (s: pstate) t l, Up s (t :: l) -> kind_eqb (tk t) K_LPAREN = false ->
+  exists s1, (forall f, try_paren_type_name P (S f) s = Ok (None, s1)) /\ Up s1 (t :: l) /\ Same P s s1.
+Proof.
+  intros s t l HU Hk. destruct (accept_miss P s t l K_LPAREN HU Hk) as [s1 [Ha [HU1 HS]]].
+  exists s1. split; [|split; [exact HU1|exact HS]]. intros f. rewrite tptn_eq. unfold bind at 1. rewrite mark_eq. unfold bind at 1. rewrite Ha. reflexivity.
+Qed.
+
+Lemma tptn_not_type_c : forall (s: pstate) lp x l, Up s (lp :: x :: l) -> kind_eqb (tk lp) K_LPAREN = true ->
+  kind_in (tk x) tbl_DECL_START = false ->
+  exists s1, (forall f, try_paren_type_name P (S f) s = Ok (None, s1)) /\ Up s1 (lp :: x :: l) /\
+             idx P s1 = idx P s /\ ticks P s1 = (ticks P s + 1)%N.
+Proof.
+  intros s lp x l HU Hk Hx. destruct (accept_hit P s lp (x :: l) K_LPAREN HU Hk) as [s2 [Ha [HU2 HA]]].
+  destruct (peek_kind_up P s2 x l HU2) as [s3 [Hp [HU3 HS]]].
+  destruct (Adv_Same P _ _ _ _ HA HS) as [Hb [Hi Ht]].
+  destruct (reset_one P s3 lp (before P s) (idx P s) (x :: l) Hb Hi HU3) as [s4 [Hr [HU4 [_ [Hi4 Ht4]]]]].
+  exists s4. split; [|split; [exact HU4|split; [exact Hi4|congruence]]]. intros f. rewrite tptn_eq. unfold bind at 1. rewrite mark_eq. unfold bind at 1. rewrite Ha.
+  unfold bind at 1. unfold starts_declaration. unfold bind at 1. rewrite Hp. unfold ret at 1. cbn [okind_in]. rewrite Hx. cbn [negb].
+  unfold bind at 1. rewrite Hr. reflexivity.
+Qed.
+
+Lemma suffixes_stop_c : forall (s: pstate) n l, Up s (n :: l) -> quiet (tk n) = true ->
+  exists s1, (forall f e, p_postfix_suffixes P (S f) e s = Ok (e, s1)) /\ Up s1 (n :: l) /\ Same P s s1.
+Proof.
+  intros s n l HU Hq. destruct (quiet_facts _ Hq) as [H1 [H2 [H3 H4]]].
+  destruct (accept_miss P s n l K_LBRACKET HU H1) as [s1 [Ha1 [HU1 HS1]]].
+  destruct (accept_miss P s1 n l K_LPAREN HU1 H2) as [s2 [Ha2 [HU2 HS2]]].
+  destruct (peek_kind_up P s2 n l HU2) as [s3 [Hp [HU3 HS3]]].
+  exists s3. split; [|split; [exact HU3|exact (Same_trans P _ _ _ (Same_trans P _ _ _ HS1 HS2) HS3)]].
+  intros f e. rewrite (UnaryShape.suffix_eq P). unfold bind at 1. rewrite Ha1. unfold bind at 1. rewrite Ha2.
+  unfold bind at 1. rewrite Hp. rewrite H3, H4. reflexivity.
+Qed.
+
+Lemma paren_cast_c : forall X (lp rpt x n: tok) le l,
+  kind_eqb (tk lp) K_LPAREN = true -> kind_eqb (tk rpt) K_RPAREN = true ->
+  kind_in (tk x) tbl_DECL_START = false -> quiet (tk n) = true ->
+  (forall s, Up s (x :: le ++ rpt :: n :: l) ->
+     exists f0 N s', (forall f, f0 <= f -> p_expression P f s = Ok (N, s')) /\ Up s' (rpt :: n :: l) /\ strip N = X /\ Ran P s s' (S (length le))) ->
+  forall s, Up s (lp :: x :: le ++ rpt :: n :: l) ->
+  exists f0 N s', (forall f, f0 <= f -> p_cast_expression P f s = Ok (N, s')) /\ Up s' (n :: l) /\ strip N = X /\ Ran P s s' (S (S (S (length le)))).
+Proof.
+  intros X lp rpt x n le l Hlp Hrp Hx Hq IH s HU.
+  destruct (tptn_not_type_c s lp x _ HU Hlp Hx) as [s1 [H1 [HU1 [Hi1 Ht1]]]].
+  destruct (peek_kind_up P s1 lp _ HU1) as [s2 [H2 [HU2 HS2]]].
+  destruct (tptn_not_type_c s2 lp x _ HU2 Hlp Hx) as [s3 [H3 [HU3 [Hi3 Ht3]]]].
+  destruct (peek_kind_up P s3 lp _ HU3) as [s4 [H4 [HU4 HS4]]].
+  destruct (advance_up P s4 lp _ HU4) as [s5 [H5 [HU5 HA5]]].
+  destruct (IH s5 HU5) as [f0 [N [s6 [H6 [HU6 [HN HR6]]]]]].
+  destruct (expect_up P s6 rpt _ K_RPAREN HU6 Hrp) as [s7 [H7 [HU7 HA7]]].
+  destruct (suffixes_stop_c s7 n l HU7 Hq) as [s8 [H8 [HU8 HS8]]].
+  exists (f0 + 5), N, s8. split; [|split; [exact HU8|split; [exact HN|cost_tac]]].
   intros f Hf. destruct f as [|[|[|[|f]]]]; try lia.
   rewrite (cast_eq P). unfold bind at 1. rewrite H1.
   assert (Hk: tk lp = K_LPAREN). { clear -Hlp. destruct (tk lp); vm_compute in Hlp; try discriminate Hlp; reflexivity. }
